@@ -4,7 +4,7 @@
 (* the responses it read (cl2.r) and the moment the proxy closed the        *)
 (* connection (cl2.eof), all stamped by the client in ms since it connected.*)
 (*   Inv_C03_NoCloseInFlight  the proxy closes a connection only when no    *)
-(*                            query the client sent (>= 150 ms ago) is      *)
+(*                            query the client sent (>= 400 ms ago) is      *)
 (*                            unanswered  [ConnLife!Inv_C03_NoCloseInFlight]*)
 (*   Inv_C03_AtMostOne / Inv_C03_Header   one response per query, own ID    *)
 (*   Inv_ConnLife_NotEarly    not closed before the idle time-out has       *)
@@ -15,7 +15,7 @@
 (* hygiene); they are reported in the evidence, never as a verdict.         *)
 EXTENDS TraceBase, FiniteSets
 
-Early == 150
+Early == 400
 Slack == 900
 
 VARIABLES l, cs
